@@ -241,15 +241,16 @@ class Interp:
             self.modules[modname] = m
             return m
         rel = modname.replace(".", "/")
-        path = os.path.join(self.repo, rel + ".py")
+        root = self.repo if not modname.startswith("spec.") else os.path.dirname(os.path.dirname(os.path.abspath(__file__)))   # reference transcriptions live in /verif/spec
+        path = os.path.join(root, rel + ".py")
         if not os.path.exists(path):
-            path = os.path.join(self.repo, rel, "__init__.py")
+            path = os.path.join(root, rel, "__init__.py")
             if not os.path.exists(path):
                 raise Unsupported(f"module {modname} is neither modelled nor part of the repository")
         src = open(path).read()
         tree = ast.parse(src, filename=path)
         mod = ModuleV(modname)
-        mod.path = os.path.relpath(path, self.repo)
+        mod.path = os.path.relpath(path, root)
         mod.env = Env()
         mod.env.vars = mod.attrs
         mod.attrs["__name__"] = modname
@@ -372,6 +373,14 @@ class Interp:
 
     def assign(self, tgt, v, env, mod):
         if isinstance(tgt, ast.Name):
+            if tgt.id in env.vars.get("__nonlocal__", ()):
+                e = env.parent
+                while e is not None and tgt.id not in e.vars:
+                    e = e.parent
+                if e is None:
+                    raise Unsupported("nonlocal name not found")
+                e.vars[tgt.id] = v
+                return
             env.vars[tgt.id] = v
         elif isinstance(tgt, (ast.Tuple, ast.List)):
             elems = self.iterate(v)
@@ -438,7 +447,7 @@ class Interp:
         raise Unsupported("global statement")
 
     def st_Nonlocal(self, st, env, mod):
-        raise Unsupported("nonlocal statement")
+        env.vars.setdefault("__nonlocal__", set()).update(st.names)
 
     def st_Import(self, st, env, mod):
         for a in st.names:
